@@ -56,6 +56,15 @@ theorem exec_local : Str.exec.Local where
   frame2 := frame2
   local2 := local2
 
+/-! ## the small executor's glob matcher IS the reference model's (`RedisX.globMatch`) -/
+
+theorem classScanF_eq (c : Nat) (p : List Nat) : classScanF c p = RedisX.classScan c p := rfl
+
+theorem globFuelF_eq (n : Nat) (p s : List Nat) : globFuelF n p s = RedisX.globFuel n p s := rfl
+
+/-- `globB` (evaluated with every recursive call bound once) = `RedisX.globMatch` -/
+theorem globB_eq (p k : List Nat) : globB p k = RedisX.globMatch p k := globFuelF_eq _ p k
+
 end Str
 end Shards
 end RedisVerif
